@@ -5,9 +5,13 @@ C07 — Managed sockets reach every worker generation and are never rebound.
 The theorems speak about `Circus.Sockets` (CircusModel/Model/Sockets.lean): the daemon's descriptor
 table with lowest-free numbering, the `CircusSockets` dict, `Process._get_sockets_fds`,
 `format_args`, `Popen(close_fds=not use_fds)` and the inheritance rule of PEP 446.  They hold for
-every initial descriptor table `t0` in which stdio is open, every list of sockets `specs`, every
-list of watchers `ws` and every history `pre` / `ops` (lists of `Op`: initialize, spawn, death,
-restart, reload, incr, decr, opening and closing of unrelated files, stop, in any order).
+every initial descriptor table `t0` in which stdio is open, every set `f0` of unix-socket paths that
+exist beforehand, every list of sockets `specs` (inet or unix; stream, seqpacket or datagram;
+`so_reuseport`, `replace`), every list of watchers `ws` (with or without `use_sockets`, with or
+without `stdin_socket`) and every history `pre` / `ops` (lists of `Op`: initialize, spawn, death,
+restart, reload of a watcher, incr, decr, opening and closing of unrelated files, stop, in any
+order).  `NoReload`: the history contains no `reloadconfig` that changes the socket sections — C07
+does not quantify over those; what they leave behind is the subject of Props/C08Sockets.lean.
 
 `s1` below is any state of a running daemon (`initialize` done, `stop` not yet) reached from
 `setup t0 specs ws`; "startup" in the docstrings is that state.
@@ -17,20 +21,24 @@ open Circus.GnuArgs Circus.Shlex
 
 /-- The dict the daemon works with holds, at any time, exactly the configured sockets in the
     configured order (name, `so_reuseport`, address); only their descriptors ever change. -/
-theorem C07_dict_is_configuration (t0 : FdTable) (specs : List Spec) (ws : List Watcher) (pre : List Op) :
-    (run (setup t0 specs ws) pre).socks.map sockSpec = specs.map (fun k => (k.name, k.reuseport, k.addr)) := by
-  rw [socks_spec_run, socks_spec_setup]
+theorem C07_dict_is_configuration (t0 : FdTable) (f0 : List Nat) (specs : List Spec) (ws : List Watcher)
+    (pre : List Op) (hn : NoReload pre) :
+    (run (setup t0 specs ws f0) pre).socks.map (·.toSpec) = specs := by
+  rw [socks_spec_run _ _ hn, socks_spec_setup]
 
 /-- In every reachable state of a running daemon every managed socket that is not `so_reuseport`
     is open under a descriptor number above stdio, is a socket, inheritable, bound to its own
-    address and listening — whatever happened to the workers and to other descriptors before. -/
-theorem C07_open_and_listening (t0 : FdTable) (specs : List Spec) (ws : List Watcher) (pre : List Op)
-    (h0 : Stdio t0) (hrun : (run (setup t0 specs ws) pre).phase = .running) :
-    ∀ k ∈ (run (setup t0 specs ws) pre).socks, k.reuseport = false →
-      ∃ fd d, k.fd = some fd ∧ 3 ≤ fd ∧ (run (setup t0 specs ws) pre).fdt.get fd = some d ∧
-        d.kind = .sock ∧ d.inheritable = true ∧ d.listening = true ∧ d.addr = some k.addr ∧ d.bindSer ≠ 0 := by
+    address, and listening exactly when its type is connection oriented (`SOCK_STREAM`,
+    `SOCK_SEQPACKET`; a `SOCK_DGRAM` socket is bound only) — whatever happened to the workers and to
+    other descriptors before. -/
+theorem C07_open_and_listening (t0 : FdTable) (f0 : List Nat) (specs : List Spec) (ws : List Watcher) (pre : List Op)
+    (h0 : Stdio t0) (hn : NoReload pre) (hrun : (run (setup t0 specs ws f0) pre).phase = .running) :
+    ∀ k ∈ (run (setup t0 specs ws f0) pre).socks, k.reuseport = false →
+      ∃ fd d, k.fd = some fd ∧ 3 ≤ fd ∧ (run (setup t0 specs ws f0) pre).fdt.get fd = some d ∧
+        d.kind = .sock ∧ d.inheritable = true ∧ d.listening = k.typ.listens ∧ d.addr = some k.addr ∧
+        d.bindSer ≠ 0 := by
   intro k hk hr
-  have g := good_run pre (good_setup t0 specs ws h0)
+  have g := good_run pre (good_setup t0 specs ws f0 h0) hn
   obtain ⟨fd, d, hfd, hd, hb, hl, ha⟩ := g.bound hrun k hk hr
   obtain ⟨h3, d', hd', hkind, hinh⟩ := g.sockDesc k hk fd hfd
   rw [hd] at hd'
@@ -39,24 +47,26 @@ theorem C07_open_and_listening (t0 : FdTable) (specs : List Spec) (ws : List Wat
 
 /-- The descriptor number of a managed socket (`so_reuseport` or not) never changes while the
     daemon lives: between any two states of the running daemon the dict is the same, numbers included. -/
-theorem C07_fd_stable (t0 : FdTable) (specs : List Spec) (ws : List Watcher) (pre ops : List Op) (h0 : Stdio t0)
-    (h1 : (run (setup t0 specs ws) pre).phase = .running)
-    (h2 : (run (run (setup t0 specs ws) pre) ops).phase = .running) :
-    (run (run (setup t0 specs ws) pre) ops).socks = (run (setup t0 specs ws) pre).socks := by
-  have g := good_run pre (good_setup t0 specs ws h0)
-  exact ((along_run ops (along_refl g h1)).frame h2).1
+theorem C07_fd_stable (t0 : FdTable) (f0 : List Nat) (specs : List Spec) (ws : List Watcher) (pre ops : List Op) (h0 : Stdio t0)
+    (hn : NoReload pre) (hn' : NoReload ops)
+    (h1 : (run (setup t0 specs ws f0) pre).phase = .running)
+    (h2 : (run (run (setup t0 specs ws f0) pre) ops).phase = .running) :
+    (run (run (setup t0 specs ws f0) pre) ops).socks = (run (setup t0 specs ws f0) pre).socks := by
+  have g := good_run pre (good_setup t0 specs ws f0 h0) hn
+  exact ((along_run ops (along_refl g h1) hn').frame h2).1
 
 /-- No managed socket is ever re-created, rebound, closed or otherwise altered while the daemon
     lives: between any two states of the running daemon its descriptor denotes the same open file
     (identity `id`), bound by the same `bind` call (`bindSer`), with the same flags. -/
-theorem C07_never_rebound (t0 : FdTable) (specs : List Spec) (ws : List Watcher) (pre ops : List Op) (h0 : Stdio t0)
-    (h1 : (run (setup t0 specs ws) pre).phase = .running)
-    (h2 : (run (run (setup t0 specs ws) pre) ops).phase = .running) :
-    ∀ k ∈ (run (setup t0 specs ws) pre).socks, ∀ fd, k.fd = some fd →
-      (run (run (setup t0 specs ws) pre) ops).fdt.get fd = (run (setup t0 specs ws) pre).fdt.get fd := by
+theorem C07_never_rebound (t0 : FdTable) (f0 : List Nat) (specs : List Spec) (ws : List Watcher) (pre ops : List Op) (h0 : Stdio t0)
+    (hn : NoReload pre) (hn' : NoReload ops)
+    (h1 : (run (setup t0 specs ws f0) pre).phase = .running)
+    (h2 : (run (run (setup t0 specs ws f0) pre) ops).phase = .running) :
+    ∀ k ∈ (run (setup t0 specs ws f0) pre).socks, ∀ fd, k.fd = some fd →
+      (run (run (setup t0 specs ws f0) pre) ops).fdt.get fd = (run (setup t0 specs ws f0) pre).fdt.get fd := by
   intro k hk fd hfd
-  have g := good_run pre (good_setup t0 specs ws h0)
-  exact ((along_run ops (along_refl g h1)).frame h2).2 fd (Or.inr ⟨k, hk, hfd⟩)
+  have g := good_run pre (good_setup t0 specs ws f0 h0) hn
+  exact ((along_run ops (along_refl g h1) hn').frame h2).2 fd (Or.inr ⟨k, hk, hfd⟩)
 
 /-
 Full statement of "same socket for every generation" (NOT a theorem, see
@@ -69,20 +79,21 @@ Full statement of "same socket for every generation" (NOT a theorem, see
     descriptor `fd` of the child is the very open file the daemon has under `fd` at startup (same
     identity, same bind, listening).  Extra hypothesis `hci`: no two socket names differ only by
     letter case. -/
-theorem C07_same_socket_every_generation_partial (t0 : FdTable) (specs : List Spec) (ws : List Watcher)
-    (pre ops : List Op) (h0 : Stdio t0) (h1 : (run (setup t0 specs ws) pre).phase = .running)
-    (hci : NamesCI (run (setup t0 specs ws) pre).socks) :
-    ∃ new, (run (run (setup t0 specs ws) pre) ops).log = new ++ (run (setup t0 specs ws) pre).log ∧
+theorem C07_same_socket_every_generation_partial (t0 : FdTable) (f0 : List Nat) (specs : List Spec) (ws : List Watcher)
+    (pre ops : List Op) (h0 : Stdio t0) (hn : NoReload pre) (hn' : NoReload ops)
+    (h1 : (run (setup t0 specs ws f0) pre).phase = .running)
+    (hci : NamesCI (run (setup t0 specs ws f0) pre).socks) :
+    ∃ new, (run (run (setup t0 specs ws f0) pre) ops).log = new ++ (run (setup t0 specs ws f0) pre).log ∧
       ∀ r ∈ new, r.phase = .running → r.useSockets = true →
         r.closeFds = false ∧
-        ∀ k ∈ (run (setup t0 specs ws) pre).socks, k.reuseport = false →
-          ∃ fd d, k.fd = some fd ∧ (run (setup t0 specs ws) pre).fdt.get fd = some d ∧
-            d.listening = true ∧ d.addr = some k.addr ∧ d.bindSer ≠ 0 ∧
+        ∀ k ∈ (run (setup t0 specs ws f0) pre).socks, k.reuseport = false →
+          ∃ fd d, k.fd = some fd ∧ (run (setup t0 specs ws f0) pre).fdt.get fd = some d ∧
+            d.listening = k.typ.listens ∧ d.addr = some k.addr ∧ d.bindSer ≠ 0 ∧
             r.inherited.get fd = some d ∧
             ∀ g m, lowerStr g = socketsDot ++ lowerStr k.name →
               repl (fmtOptions (socketsKw r.socketsFds)) g m = FormatArgs.decimal fd := by
-  have g := good_run pre (good_setup t0 specs ws h0)
-  obtain ⟨new, hnew, hrec⟩ := (along_run ops (along_refl g h1)).log
+  have g := good_run pre (good_setup t0 specs ws f0 h0) hn
+  obtain ⟨new, hnew, hrec⟩ := (along_run ops (along_refl g h1) hn').log
   refine ⟨new, hnew, ?_⟩
   intro r hr hph hu
   have ok := hrec r hr hph
@@ -120,24 +131,51 @@ theorem C07_argv_carries_fd (r : Rec) (xs : List Str) (hargs : r.args = .list xs
 
 /-- Every `Popen` record of a run satisfies the premise `hargv` of `C07_argv_carries_fd`: its
     `argv` is `format_args` of its own `cmd`, `args` and sockets table. -/
-theorem C07_argv_is_format_args (t0 : FdTable) (specs : List Spec) (ws : List Watcher) (pre ops : List Op)
-    (h0 : Stdio t0) (h1 : (run (setup t0 specs ws) pre).phase = .running) :
-    ∃ new, (run (run (setup t0 specs ws) pre) ops).log = new ++ (run (setup t0 specs ws) pre).log ∧
+theorem C07_argv_is_format_args (t0 : FdTable) (f0 : List Nat) (specs : List Spec) (ws : List Watcher) (pre ops : List Op)
+    (h0 : Stdio t0) (hn : NoReload pre) (hn' : NoReload ops)
+    (h1 : (run (setup t0 specs ws f0) pre).phase = .running) :
+    ∃ new, (run (run (setup t0 specs ws f0) pre) ops).log = new ++ (run (setup t0 specs ws f0) pre).log ∧
       ∀ r ∈ new, r.phase = .running → formatArgv r.socketsFds r.cmd r.args = .ok r.argv := by
-  have g := good_run pre (good_setup t0 specs ws h0)
-  obtain ⟨new, hnew, hrec⟩ := (along_run ops (along_refl g h1)).log
+  have g := good_run pre (good_setup t0 specs ws f0 h0) hn
+  obtain ⟨new, hnew, hrec⟩ := (along_run ops (along_refl g h1) hn').log
   exact ⟨new, hnew, fun r hr hph => (hrec r hr hph).argv⟩
 
-/-- A worker of a watcher without `use_sockets` is started with `close_fds=True` and inherits no
-    daemon descriptor above stdio — whatever is open and inheritable in the daemon (no hypothesis
-    on `t0`, on the history or on the phase). -/
-theorem C07_no_leak_without_use_sockets (t0 : FdTable) (specs : List Spec) (ws : List Watcher) (ops : List Op) :
-    ∀ r ∈ (run (setup t0 specs ws) ops).log, r.useSockets = false →
-      r.closeFds = true ∧ ∀ fd, r.inherited.get fd = none := by
+/-- `stdin_socket`: every worker of a watcher with `stdin_socket = NAME` spawned while the daemon
+    runs — whether the watcher has `use_sockets` or not — has on descriptor 0 the very open file the
+    daemon has had since startup under the descriptor of the socket called exactly `NAME`; a worker
+    of a watcher without `stdin_socket` has no daemon descriptor there.  (When no socket is called
+    `NAME`, or it is closed, `preexec_fn` fails in the child, `Popen` raises and there is no worker.) -/
+theorem C07_stdin_socket (t0 : FdTable) (f0 : List Nat) (specs : List Spec) (ws : List Watcher) (pre ops : List Op)
+    (h0 : Stdio t0) (hn : NoReload pre) (hn' : NoReload ops)
+    (h1 : (run (setup t0 specs ws f0) pre).phase = .running) :
+    ∃ new, (run (run (setup t0 specs ws f0) pre) ops).log = new ++ (run (setup t0 specs ws f0) pre).log ∧
+      ∀ r ∈ new, r.phase = .running →
+        (r.stdinSocket = none → r.fd0 = none) ∧
+        (∀ n, r.stdinSocket = some n →
+          ∃ k ∈ (run (setup t0 specs ws f0) pre).socks, k.name = n ∧
+            ∃ fd d, k.fd = some fd ∧ (run (setup t0 specs ws f0) pre).fdt.get fd = some d ∧ r.fd0 = some d) := by
+  have g := good_run pre (good_setup t0 specs ws f0 h0) hn
+  obtain ⟨new, hnew, hrec⟩ := (along_run ops (along_refl g h1) hn').log
+  refine ⟨new, hnew, ?_⟩
+  intro r hr hph
+  have ok := hrec r hr hph
+  refine ⟨ok.stdinNone, ?_⟩
+  intro n hsn
+  obtain ⟨k, hk, hname, fd, d, hfd, h0', hp⟩ := ok.stdinSock n hsn
+  exact ⟨k, hk, hname, fd, d, hfd, hp (Or.inr ⟨k, hk, hfd⟩), h0'⟩
+
+/-- A worker of a watcher without `use_sockets` — with or without `stdin_socket` — is started with
+    `close_fds=True` and inherits no daemon descriptor above stdio, whatever is open and inheritable
+    in the daemon; without `stdin_socket` it has no daemon descriptor on 0 either (with it: the one
+    socket `C07_stdin_socket` names).  No hypothesis on `t0`, on the history (socket reloads
+    included) or on the phase. -/
+theorem C07_no_leak_without_use_sockets (t0 : FdTable) (f0 : List Nat) (specs : List Spec) (ws : List Watcher) (ops : List Op) :
+    ∀ r ∈ (run (setup t0 specs ws f0) ops).log, r.useSockets = false →
+      r.closeFds = true ∧ (∀ fd, r.inherited.get fd = none) ∧ (r.stdinSocket = none → r.fd0 = none) := by
   apply noLeak_run
   intro r hr
-  have : (setup t0 specs ws).log = [] := by
-    have h : ∀ (l : List Spec) (s : State), (l.foldl (fun s k => mkSocket s k.name k.reuseport k.addr) s).log = s.log := by
+  have : (setup t0 specs ws f0).log = [] := by
+    have h : ∀ (l : List Spec) (s : State), (l.foldl mkSocket s).log = s.log := by
       intro l
       induction l with
       | nil => intro s; rfl
@@ -160,14 +198,15 @@ theorem C07_stop_closes (s : State) :
     rfl
   · intro k hk fd hfd
     simp only [step, closeAllSocks]
-    exact get_foldl_closeSock_mem _ _ _ ⟨k, hk, hfd⟩
+    exact get_foldl_closeObj_mem _ _ _ ⟨k, hk, hfd⟩
 
 /-! ## `so_reuseport` sockets: excepted by design — what actually happens -/
 
 /-- `Process._get_sockets_fds`, one `so_reuseport` socket `k`.  When the text
     `circus.sockets.<name>` occurs in the watcher's `cmd` (compared as it is: same letter case,
     `cmd` only, not `args`), the worker gets a socket of its own: a descriptor number that was free,
-    a new open file, bound by a new `bind` to the address of `k`, listening, inheritable, and the
+    a new open file, bound by a new `bind` to the address of `k`, listening (for the connection
+    oriented types), inheritable, and the
     table handed to `format_args` names that number for `k`.  Otherwise nothing is created and the
     table keeps the number of the daemon's own socket object. -/
 theorem C07_reuseport_excepted (cmd : Str) (a : Attempt) (k : Sock) :
@@ -175,15 +214,16 @@ theorem C07_reuseport_excepted (cmd : Str) (a : Attempt) (k : Sock) :
       let b := reuseStep cmd a k
       let fd := a.s.fdt.lowestFree
       a.s.fdt.get fd = none ∧ b.temp = a.temp ++ [fd] ∧ b.fds = setFd a.fds k.name (some fd) ∧
-      b.s.fdt.get fd = some { id := a.s.nextId, kind := .sock, inheritable := true, listening := true,
-                              addr := some k.addr, bindSer := a.s.nextBind } ∧
+      b.s.fdt.get fd = some { id := a.s.nextId, kind := .sock, inheritable := true,
+                              listening := k.typ.listens, addr := some k.addr, bindSer := a.s.nextBind } ∧
       b.s.nextId = a.s.nextId + 1 ∧ b.s.nextBind = a.s.nextBind + 1) ∧
     (isInfix (socketsRef k.name) cmd = false → reuseStep cmd a k = a) := by
   constructor
   · intro h
     have e : reuseStep cmd a k =
-        { s := (newBoundSocket a.s k.addr).1, fds := setFd a.fds k.name (some (newBoundSocket a.s k.addr).2),
-          temp := a.temp ++ [(newBoundSocket a.s k.addr).2] } := by simp [reuseStep, h]
+        { s := (newBoundSocket a.s k.toSpec).1,
+          fds := setFd a.fds k.name (some (newBoundSocket a.s k.toSpec).2),
+          temp := a.temp ++ [(newBoundSocket a.s k.toSpec).2] } := by simp [reuseStep, h]
     simp only [e]
     exact ⟨FdTable.get_lowestFree _, rfl, rfl,
       FdTable.get_put_self _ _ _ (FdTable.lowestFree_le_length _), rfl, rfl⟩
@@ -218,7 +258,8 @@ private def wArgsOnly : Watcher :=
   { useSockets := true, cmd := s "srv", args := .list [s "$(circus.sockets.rp)", s "$(circus.sockets.nosuch)"],
     numprocesses := 1, pipeOut := false, pipeErr := false, maxRetry := 1 }
 
-private def specs2 : List Spec := [⟨s "web", false, 0⟩, ⟨s "rp", true, 1⟩]
+private def specs2 : List Spec := [{ name := s "web", reuseport := false, addr := 0 },
+                                  { name := s "rp", reuseport := true, addr := 1 }]
 private def started : State := run (setup t3 specs2 [wWeb, wPlain, wArgsOnly]) [.initialize]
 private def later : State :=
   run started [.spawn 0, .openOther true, .die 0, .spawn 0, .spawn 1, .restart 0, .reload 0, .incr 0 1, .spawn 2]
@@ -231,11 +272,14 @@ example : Stdio t3 := by
   | 2, _ => exact ⟨stdio, rfl⟩
 
 example : started.phase = .running ∧ later.phase = .running := by decide
-example : started.socks = [⟨s "web", false, 0, some 3⟩, ⟨s "rp", true, 1, some 4⟩] ∧ later.socks = started.socks := by
+example : started.socks = [{ name := s "web", reuseport := false, addr := 0, fd := some 3 },
+                           { name := s "rp", reuseport := true, addr := 1, fd := some 4 }] ∧
+    later.socks = started.socks := by
   decide
 example : NamesCI started.socks := by
   intro k hk k' hk' h
-  have e : started.socks = [⟨s "web", false, 0, some 3⟩, ⟨s "rp", true, 1, some 4⟩] := by decide
+  have e : started.socks = [{ name := s "web", reuseport := false, addr := 0, fd := some 3 },
+                            { name := s "rp", reuseport := true, addr := 1, fd := some 4 }] := by decide
   rw [e] at hk hk'
   simp only [List.mem_cons, List.not_mem_nil, or_false] at hk hk'
   rcases hk with rfl | rfl <;> rcases hk' with rfl | rfl <;> first | rfl | (revert h; decide)
@@ -274,6 +318,25 @@ example : (later.log.filter (fun r => r.w == 2)).map (fun r => (r.argv, r.temp, 
        some { id := 2, kind := .sock, inheritable := true, listening := false, addr := none, bindSer := 0 }) ] := by
   decide
 
+/-- socket types and `stdin_socket`: after `initialize` the stream and the seqpacket socket listen,
+    the datagram socket is bound only; the worker of the watcher with `stdin_socket = web` and
+    without `use_sockets` is started with `close_fds=True`, keeps nothing above 2 and has the `web`
+    socket on descriptor 0; the watcher whose `stdin_socket` does not exist gets no worker -/
+example :
+    let inetd : Watcher := { useSockets := false, cmd := s "in.srv", args := .none, numprocesses := 1, pipeOut := true,
+                             pipeErr := false, maxRetry := 1, stdinSocket := some (s "web") }
+    let lost : Watcher := { inetd with stdinSocket := some (s "Web") }
+    let st := run (setup t3 [{ name := s "web", reuseport := false, addr := 0 },
+                             { name := s "seq", reuseport := false, addr := 1, typ := .seqpacket, unix := true },
+                             { name := s "dg", reuseport := false, addr := 2, typ := .dgram, unix := true }] [inetd, lost])
+                  [.initialize, .spawn 0, .spawn 1, .die 0, .spawn 0]
+    [3, 4, 5].map (fun fd => (st.fdt.get fd).map (fun d => (d.listening, d.addr))) =
+      [some (true, some 0), some (true, some 1), some (false, some 2)] ∧
+    st.files = [2, 1] ∧
+    st.log.map (fun r => (r.w, r.closeFds, r.inherited.all (· == none), r.fd0.map (fun d => (d.id, d.addr)))) =
+      [(0, true, true, some (1, some 0)), (0, true, true, some (1, some 0))] := by
+  decide
+
 /-- **counter-example to the full statement** — two sockets `Web` and `web` (names differing only by
     letter case; both bound and listening, descriptors 3 and 4).  A `use_sockets` worker started
     with `--fd $(circus.sockets.Web)` — the exact name of the first one — is handed 4, the descriptor
@@ -282,9 +345,11 @@ example : (later.log.filter (fun r => r.w == 2)).map (fun r => (r.argv, r.temp, 
 theorem C07_counterexample_names_differing_by_case :
     let w : Watcher := { useSockets := true, cmd := s "srv", args := .list [s "--fd", s "$(circus.sockets.Web)"],
                          numprocesses := 1, pipeOut := false, pipeErr := false, maxRetry := 1 }
-    let st := run (setup t3 [⟨s "Web", false, 0⟩, ⟨s "web", false, 1⟩] [w]) [.initialize, .spawn 0]
+    let st := run (setup t3 [{ name := s "Web", reuseport := false, addr := 0 },
+                             { name := s "web", reuseport := false, addr := 1 }] [w]) [.initialize, .spawn 0]
     st.phase = .running ∧
-    st.socks = [⟨s "Web", false, 0, some 3⟩, ⟨s "web", false, 1, some 4⟩] ∧
+    st.socks = [{ name := s "Web", reuseport := false, addr := 0, fd := some 3 },
+                { name := s "web", reuseport := false, addr := 1, fd := some 4 }] ∧
     (st.fdt.get 3).map (·.addr) = some (some 0) ∧ (st.fdt.get 4).map (·.addr) = some (some 1) ∧
     st.log.map (fun r => (r.argv, (r.inherited.get 4).map (·.addr))) = [([s "srv", s "--fd", s "4"], some (some 1))] := by
   decide
